@@ -199,11 +199,19 @@ class GroupHead:
 
 
 def install_groupby_head(I):
-    # Series.groupby(mask).head(n): a sub-selection of the view
+    # Series.groupby(mask).head(n): a sub-selection of the view.  A Series used as the grouper is ALIGNED on the labels of the grouped
+    # object (pandas reindexes it): with repeated labels in the grouper's index that raises ValueError("cannot reindex on an axis with
+    # duplicate labels").
     def groupby(self, by=None, **kw):
+        if isinstance(by, SeriesVal):
+            i, j = z3.Int(cur().fresh_name("i")), z3.Int(cur().fresh_name("j"))
+            dup = SBool(z3.Exists([i, j], z3.And(by.sel(i), by.sel(j), i < j, by.label(i) == by.label(j))))
+            if cur().decide(dup, "grouper index has repeated labels"):
+                I.raise_py(ValueError, "cannot reindex on an axis with duplicate labels")
         return _GB(self)
 
     SeriesVal.groupby = groupby
+    SeriesVal.head = SeriesVal.head  # (plain positional head is part of the theory)
 
 
 class _GB:
@@ -256,6 +264,36 @@ class PostprocessField(Contract):
             if nfc is None:
                 out["all_failing_rows_reported_without_truncation"] = SBool(z3.Implies(failing, fc.sel(i)))
         return out
+
+
+def _postprocess_probe(rec):
+    def thunk():
+        """the reported failure cases are exactly the elements whose check output is False - also under repeated row labels"""
+        import warnings
+
+        import pandas as pd
+        import pandera as pa
+
+        warnings.simplefilter("ignore")
+        obs, bad = {}, False
+        for idx in ([0, 0, 1], [0, 1, 2], ["x", "y", "x"]):
+            s = pd.Series([1, -1, 2], index=idx)
+            for n in (None, 1):
+                try:
+                    pa.SeriesSchema(int, pa.Check(lambda x: x > 0, n_failure_cases=n)).validate(s)
+                    got = "accepted"
+                except pa.errors.SchemaError as e:
+                    fc = e.failure_cases
+                    got = sorted(fc["failure_case"].tolist()) if hasattr(fc, "columns") else f"{e.reason_code.name}: {fc!r}"[:90]
+                if got != [-1]:
+                    bad = True
+                    obs[f"values [1, -1, 2], index {idx}, n_failure_cases={n}"] = f"failure cases {got}, expected [-1]"
+        return bad, obs or "failure cases are exactly the failing elements (also with repeated labels)"
+
+    return thunk
+
+
+PostprocessField.concretize = lambda self, rec: _postprocess_probe(rec)
 
 
 class PostprocessBool(Contract):
